@@ -117,17 +117,28 @@ def s_before_l(text):
 # (ii) read -> write -> reload
 
 
-def roundtrip(res, scratch, text, what, low_memory=False):
+def roundtrip(res, scratch, text, what, low_memory=False, gz_members=0):
     from gaftools.gfa import GFA
 
     inp = os.path.join(scratch, "rt.gfa")
     outp = os.path.join(scratch, "rt-out.gfa")
-    fw.write_text(inp, text)
+    if gz_members:
+        # the same text as a gzip file of several members (what bgzip writes, or `cat a.gfa.gz b.gfa.gz`), cut inside a line
+        import gzip
+
+        inp += ".gz"
+        data = text.encode()
+        cuts = [len(data) * i // gz_members + (3 if 0 < i < gz_members else 0) for i in range(gz_members + 1)]
+        with open(inp, "wb") as f:
+            for a, b in zip(cuts, cuts[1:]):
+                f.write(gzip.compress(data[a:b]))
+    else:
+        fw.write_text(inp, text)
     if os.path.exists(outp):
         os.remove(outp)
     res.evaluations += 1
     res.next_call()
-    case = {"mode": "roundtrip", "gfa": text}
+    case = {"mode": "roundtrip", "gfa": text, "gz_members": gz_members}
     o = fw.guarded(GFA, inp)
     if o.kind != "ok":
         res.fail(f"C07/load:{o.sig()}", f"{what}: loading a valid GFA failed: {o.brief()}", case)
@@ -218,17 +229,25 @@ def tags_part(res, scratch):
     # two links between the same node sides that differ only in overlap (distinct links in GFA terms)
     lines = ["S\ts1\tACGT", "S\ts2\tGGA", "L\ts1\t+\ts2\t+\t0M\tx1:i:1", "L\ts1\t+\ts2\t+\t5M\tx2:i:2"]
     roundtrip(res, scratch, "".join(l + "\n" for l in lines), "parallel links differing only in overlap")
+    lines = ["S\ts1\tACGT\tLN:i:4", "S\ts2\tGGA", "S\ts3\tTT\tzs:Z:a:b", "L\ts1\t+\ts2\t+\t0M\tx1:i:1", "L\ts2\t+\ts3\t-\t0M", "L\ts3\t+\ts3\t+\t1M"]
+    for members in (1, 2, 3):
+        roundtrip(res, scratch, "".join(l + "\n" for l in lines), f"gzip file of {members} member(s)", gz_members=members)
+        res.count("gzip_graphs_loaded")
 
 
 # ----------------------------------------------------------------------------------------------
 # (i) order_gfa outputs
 
 
-def judge_order_outputs(res, scratch, g, chains, chrom_order, by_chrom, with_sequence, what):
+def judge_order_outputs(res, scratch, g, chains, chrom_order, by_chrom, with_sequence, what, second_run=False):
     res.next_call()
     run = oc.run_order(scratch, g.text(), chrom_order, by_chrom=by_chrom, with_sequence=with_sequence)
+    if second_run:
+        # the same command once more into the directory that now holds the first run's files: what is judged is the second result
+        run = oc.run_order(scratch, g.text(), chrom_order, by_chrom=by_chrom, with_sequence=with_sequence, keep_outdir=True)
+        res.count("second_runs_into_the_same_directory")
     res.evaluations += 1
-    case = {"mode": "order", "gfa": g.text(), "chromosome_order": chrom_order, "by_chrom": by_chrom, "with_sequence": with_sequence}
+    case = {"mode": "order", "gfa": g.text(), "chromosome_order": chrom_order, "by_chrom": by_chrom, "with_sequence": with_sequence, "second_run": second_run}
     if run.outcome.kind != "ok":
         res.fail(f"C07/order:failed:{run.outcome.sig()}", f"{what}: {run.outcome.brief()}", case)
         return
@@ -247,6 +266,9 @@ def judge_order_outputs(res, scratch, g, chains, chrom_order, by_chrom, with_seq
             res.fail("C07/order:no-output", f"{what}: no GFA written for {name} ({run.files})", case)
             continue
         gout = rgfa.Graph.parse(text)
+        slines = [l.split("\t")[1] for l in text.split("\n") if l.startswith("S\t")]
+        if len(slines) != len(set(slines)):
+            res.fail("C07/order:duplicated-segments", f"{what} [{name}]: {len(slines)} S lines for {len(set(slines))} segments", case)
         for kind, t in compare_graphs(g, gout, nodes=nodes, with_seq=with_sequence):
             res.fail(f"C07/order:{kind}", f"{what} [{name}]: {t}", case)
         for s in gout.segs.values():
@@ -301,6 +323,7 @@ def order_part(res, spec, tier, scratch):
             for req in ("chr1,chr2", "chr2,chr1", "chr2"):
                 for by_chrom in (True, False):
                     judge_order_outputs(res, scratch, g2, [c, second], req, by_chrom, True, f"[{name}+deletion] --chromosome_order {req} by_chrom={by_chrom}")
+            judge_order_outputs(res, scratch, g2, [c, second], "chr2,chr1", False, True, f"[{name}+deletion] --chromosome_order chr2,chr1, run twice into one directory", second_run=True)
             if spec["shard"] == 2:
                 res.sample({"order_gfa_input": c.g.lines()[:5] + ["..."], "options": ["--by-chrom", "--with-sequence", "--chromosome_order chr2,chr1"]})
 
@@ -319,7 +342,7 @@ def run_shard(spec, tier, scratch):
 def replay(case, scratch):
     res = fw.ShardResult()
     if case["mode"] == "roundtrip":
-        roundtrip(res, scratch, case["gfa"], "replay")
+        roundtrip(res, scratch, case["gfa"], "replay", gz_members=case.get("gz_members", 0))
         return res.failures
     g = rgfa.Graph.parse(case["gfa"])
     chains = []
@@ -337,5 +360,5 @@ def replay(case, scratch):
         names = [s.SN for s in sub.segs.values() if s.SR == 0]
         c.g, c.order, c.chrom = sub, gen.chain_order_by_model(sub) or [], max(set(names), key=names.count) if names else "?"
         chains.append(c)
-    judge_order_outputs(res, scratch, g, chains, case["chromosome_order"], case["by_chrom"], case["with_sequence"], "replay")
+    judge_order_outputs(res, scratch, g, chains, case["chromosome_order"], case["by_chrom"], case["with_sequence"], "replay", second_run=bool(case.get("second_run")))
     return res.failures
